@@ -253,7 +253,7 @@ func r172(c *Ctx) {
 		}
 		guardsOK := true
 		for _, ce := range dominatingConds(cs.instr.Block()) {
-			cm, ok := asCmp(ce.cond, ce.taken)
+			cm, ok := ce.asCmp()
 			if !ok || cm.op != token.NEQ || !isLoadOfField(cm.x, f) || !isNilConst(cm.y) {
 				guardsOK = false
 			}
